@@ -142,11 +142,18 @@ def run(ctx):
     f = ctx.fn(common.TOK % "error::ErrorCheck<'_>")
     if f:
         T = tpl.Templates(f)
-        ok = False
+        ok = None
         for s in T.by_stream:
             txt = T.text(s)
-            if txt.startswith(". map_err ( | e | e . at ("):
-                ok = all(ctx._sat(d, r"is_some\(self\.location\)=True") for d in ctx.pc_strs(f, T.by_stream[s][0].blk))
+            own = [tk.text for tk in T.by_stream[s] if tk.kind == "ident"]
+            if "map_err" in own and ". map_err ( | e | e . at (" in txt:
+                here = all(ctx._sat(d, r"is_some\(self\.location\)=True") for d in ctx.pc_strs(f, T.by_stream[s][0].blk))
+                ok = here if ok is None else (ok and here)
+            elif "finish" in own and "__errors . finish ( ) ?" in txt:
+                # the unlocated finish written out as a template of its own: only without a location
+                here = all(ctx._sat(d, r"is_some\(self\.location\)=False") for d in ctx.pc_strs(f, T.by_stream[s][0].blk))
+                ok = here if ok is None else (ok and here)
+        ok = bool(ok)
         ctx.ob("C09.G.error-check-location", f.key, ".map_err(|e| e.at(location)) iff location", ok, "located finish")
     # ------------------------------------------------------------ enum fn-body template
     f = ctx.fn(common.TOK % "from_meta_impl::FromMetaImpl<'_>")
@@ -179,7 +186,7 @@ def run(ctx):
                     return True
             return False
         loop = ctx.fn("darling_core::codegen::variant_data::FieldsGen::<'a>::core_loop")
-        buffers = loop is not None and any(tk.text == "__flatten" for tk in tpl.Templates(loop).all_tokens(("ident",)))
+        buffers = loop is not None and any(tk.text == "__flatten" for g_ in ctx.generator_group(loop) for tk in tpl.Templates(g_).all_tokens(("ident",)))
         ctx.ob("C09.S.struct-body-hands-off-flatten", a.key, "flatten hand-off", has_handoff(a), "TraitImpl::require_fields must emit the flatten initialiser")
         ctx.ob("C09.S.variant-arm-hands-off-flatten", bfn.key, "flatten hand-off", has_handoff(bfn) or not buffers,
                "F18: the struct-variant arm shares core_loop (which buffers unknown items in __flatten) but FieldsGen::require_fields never emits the flatten initialiser: a `flatten` field of a struct variant is reported missing")
